@@ -25,6 +25,7 @@ var monitors = map[string]func(*vk.Ctx){
 	"C11":   runC11,
 	"C18":   runC18,
 	"C19":   runC19,
+	"C20":   runC20,
 }
 
 func main() {
